@@ -44,7 +44,7 @@ func survivingHistory(cfg Cfg, hist []Op) (surv []Op, rolledBack bool) {
 			}
 			surv = kept
 			rolledBack = true
-		case OpLVFO, OpDelFrom:
+		case OpLVFO, OpDelFrom, OpColdDelFrom:
 			at, known := survAt[op.Ver]
 			if !m.Has(op.Ver) || m.pinnedAbove(op.Ver) || !known {
 				surv = append(surv, op)
@@ -72,6 +72,9 @@ func survivingHistory(cfg Cfg, hist []Op) (surv []Op, rolledBack bool) {
 				r := *lastReopen
 				r.Ver = 0
 				surv = append(surv, r)
+			} else if op.Kind == OpColdDelFrom {
+				// the rollback was done by a new instance (specifications that use it keep the options constant)
+				surv = append(surv, Op{Kind: OpReopen, Cache: cfg.Cache, Fast: cfg.Fast, Flush: cfg.Flush})
 			}
 			for v := range survAt {
 				if v > op.Ver {
@@ -197,11 +200,14 @@ func c09Specs(tier string) []*Spec {
 		s.OnState = twinOracle(s)
 		specs = append(specs, s)
 	}
+	cold := Alpha{Writes: true, Save: true, ColdDelFrom: true, DelTo: true, MaxVersions: 3}
 	rewrite := Alpha{Writes: true, NoRemove: true, Save: true, LVFO: true, Hold: true, MaxVersions: 2}
 	resave := Alpha{Writes: true, Save: true, LoadVersion: true, MaxVersions: 3}
 	k2 := bs("a", "b")
 	k3 := bs("a", "ab", "b")
 	if tier == "quick" {
+		addNarrow("cold-rollback/2keys/d6", defaultCfg, k2, cold, 6)
+		addNarrow("cold-rollback-nofast/2keys/d6", Cfg{Fast: false, Cache: 1000}, k2, cold, 6)
 		addNarrow("rewrite/2keys/d7", defaultCfg, k2, rewrite, 7)
 		addNarrow("resave/1key/d8", defaultCfg, bs("a"), resave, 8)
 		add("default/2keys/d6", defaultCfg, k2, 6, 3, 30)
@@ -215,6 +221,8 @@ func c09Specs(tier string) []*Spec {
 		add("cache2/1key/d8", Cfg{Fast: false, Cache: 2}, bs("a"), 8, 2, 20)
 		return specs
 	}
+	addNarrow("cold-rollback/2keys/d8", defaultCfg, k2, cold, 8)
+	addNarrow("cold-rollback-nofast/2keys/d7", Cfg{Fast: false, Cache: 1000}, k2, cold, 7)
 	addNarrow("rewrite/2keys/d9", defaultCfg, k2, rewrite, 9)
 	addNarrow("resave/1key/d10", defaultCfg, bs("a"), resave, 10)
 	add("default/2keys/d8", defaultCfg, k2, 8, 3, 30)
